@@ -655,7 +655,7 @@ func TestCheck(t *testing.T) {
 		}
 		sort.Slice(targets, func(i, j int) bool { return !targets[i].probe && targets[j].probe })
 
-		nPairs := r.N(100000, 2000000)
+		nPairs := r.N(300000, 2000000)
 		for ti := range targets {
 			tg := targets[ti]
 			label := tg.k.Kind
